@@ -23,7 +23,8 @@ RULE = (
     "(patch boundaries, copy, move, copy of the parent group, deletion of the original, reopen, merge of the IH5 "
     "record); after EVERY stage every surviving copy is read back: bytes == source, contentSize == length, sha256 == "
     "hashlib digest, filename kept; from the h5py driver the file is also copied as a dataset into IH5 records (container and raw "
-    "interface) and read back after commit and reopen. For b'\\x7f' on IH5 (pack_file and cross-container copy): must raise and leave the raw tree unchanged; on h5py it is an "
+    "interface) and read back after commit and reopen; pack_file is also called with caller-supplied metadata (harvested from the file itself, "
+    "and a stale description harvested from a shorter/longer earlier state): the embedded bytes are the file's bytes. For b'\\x7f' on IH5 (pack_file and cross-container copy): must raise and leave the raw tree unchanged; on h5py it is an "
     "ordinary value. non-trivial = content with NUL/high/marker bytes or boundary length; distinct = (driver, bytes hash, history)."
 )
 ANCHORS = ["src/metador_core/packer/utils.py", "src/metador_core/harvester/common.py", "src/metador_core/ih5/overlay.py"]
@@ -135,6 +136,10 @@ def one(acc, d, driver, data, hist, idx):
             r = cross_copy(acc, d, sub, data)
             if r:
                 return r
+        if not marker and idx % 2 == 0:
+            r = given_metadata(acc, d, sub, data, src, idx)
+            if r:
+                return r
         try:
             pack_file(sub.mc["files"], src, target="f")
             return "duplicate-target", "pack_file onto an existing target accepted"
@@ -189,6 +194,37 @@ def one(acc, d, driver, data, hist, idx):
     finally:
         sub.close()
         gc.collect()
+
+
+def given_metadata(acc, d, sub, data, src, idx):
+    """pack_file with metadata handed over by the caller (documented: attached instead of the harvested defaults). Whatever the
+    caller describes, the bytes embedded are the bytes of the file: (a) metadata harvested from this very file, (b) metadata
+    harvested from an earlier, shorter/longer state of the file (a stale description)."""
+    from metador_core.harvester import harvest
+    from metador_core.packer.utils import FileMeta, pack_file
+    from metador_core.plugins import harvesters
+    hv = harvesters["core.file.generic"]
+    fresh = harvest(FileMeta, [hv(filepath=src)])
+    other = d / f"earlier{idx}.bin"
+    other.write_bytes(data[: len(data) // 2] if len(data) > 1 else data + b"tail")
+    stale = harvest(FileMeta, [hv(filepath=other)])
+    for kind, md in (("fresh", fresh), ("stale", stale)):
+        tgt = f"given_{kind}"
+        acc.count("packed_with_given_metadata")
+        try:
+            pack_file(sub.mc["files"], src, target=tgt, metadata=md)
+        except Exception as e:
+            return "pack-failed", f"pack_file with caller-supplied ({kind}) metadata raised {type(e).__name__}: {e}"
+        got = read_bytes(sub.mc["files"][tgt])
+        acc.count("readbacks")
+        if got != data:
+            return "bytes", (f"pack_file(metadata=<{kind} description, contentSize {md.contentSize}>): embedded {len(got)} bytes {got[:12]!r}, "
+                             f"the file has {len(data)} bytes {data[:12]!r}")
+        m = sub.mc["files"][tgt].meta.get("core.file")
+        if m is None or m.contentSize != md.contentSize or str(m.sha256) != str(md.sha256):
+            return "given-metadata-not-attached", f"the metadata handed to pack_file ({kind}) is not what is attached"
+        del sub.mc["files"][tgt]
+    return None
 
 
 def cross_copy(acc, d, sub, data):
@@ -279,7 +315,7 @@ def run_unit(u, acc):
 
 def inconclusive(cov):
     c = cov["counters"]
-    return [f"monitor counter {k} is zero" for k in ("readbacks", "marker_cases", "cross_container_copies", "merged_records_read", "histories", "symlinked_sources") if not c.get(k)]
+    return [f"monitor counter {k} is zero" for k in ("readbacks", "marker_cases", "cross_container_copies", "packed_with_given_metadata", "merged_records_read", "histories", "symlinked_sources") if not c.get(k)]
 
 
 def replay(case, acc):
